@@ -157,6 +157,34 @@ extern "C" fn on_vtalrm(_sig: i32) {
     }
 }
 
+// The library brought the whole process down (abort(): an allocation it asked for cannot be had, a double panic...).
+// That is an outcome of the exchange like a panic: record it, write out what there is, and let the driver resume
+// after the offending scenario.
+extern "C" fn on_abort(_sig: i32) {
+    unsafe {
+        let mut buf = String::new();
+        for l in (*std::ptr::addr_of!(PENDING)).iter() {
+            buf.push_str(l);
+            buf.push('\n');
+        }
+        if let Some(sim) = csim::sim() {
+            for l in sim.trace.iter() {
+                buf.push_str(l);
+                buf.push('\n');
+            }
+            buf.push_str(&json!({"e":"ret","kind":"panic","ho":false,"out":[],"he":false,"err":[],"text_ok":true,
+                "now":sim.now_pair(),"aborted":true}).to_string());
+            buf.push('\n');
+            buf.push_str(&json!({"e":"end","choices":sim.ch.taken,"unrep":sim.unrepresentable}).to_string());
+            buf.push('\n');
+        }
+        simk::raw::write(OUT_FD, buf.as_ptr() as *const _, buf.len());
+        let msg = format!("comm_replay: the library aborted the process in scenario line {}\nRESUME {}\n", CUR_LINE, CUR_LINE + 1);
+        simk::raw::write(2, msg.as_ptr() as *const _, msg.len());
+        simk::raw::exit_group(3);
+    }
+}
+
 fn main() {
     let args: Vec<String> = std::env::args().collect();
     let scen_path = &args[1];
@@ -176,6 +204,7 @@ fn main() {
     }
     unsafe {
         libc::signal(libc::SIGVTALRM, on_vtalrm as usize);
+        libc::signal(libc::SIGABRT, on_abort as usize);
         let tv = libc::itimerval {
             it_interval: libc::timeval { tv_sec: 0, tv_usec: 300_000 },
             it_value: libc::timeval { tv_sec: 0, tv_usec: 300_000 },
